@@ -7,7 +7,7 @@ open Proto
 /-!
 Driver for C17 (global window TRIGGER WHEN).  IO glue of the correspondence check, not part of
 any theorem.  One case = one query (cfg lines) + one row per op; the model (`Global.step` with the
-code's encoder `encJoin`, numbers at `Float`) prints what it delivers per row; the oracle
+code's encoder `encGlobal`, numbers at `Float`) prints what it delivers per row; the oracle
 `Global.Spec.checkFrom` judges the *implementation's* obs lines.
 -/
 namespace DrvC17
@@ -178,9 +178,11 @@ def verdictName : Spec.Verdict → String
 
 /-! ### classes of recorded findings (negations of the `_partial` hypotheses) -/
 
+/-- two distinct key tuples with one encoding: impossible for `encGlobal` at one arity (C04); kept as a
+sanity tag that must never appear -/
 def collides (rows : List R) : Bool :=
   let keys := (rows.map (·.key)).eraseDups
-  keys.any fun a => keys.any fun b => a ≠ b && encJoin a = encJoin b
+  keys.any fun a => keys.any fun b => a ≠ b && encGlobal a = encGlobal b
 
 /-- segments along an observed trace: for each row, its segment -/
 def segsAlong : List (R × Bool) → List R → List (Option Res) → List (List R)
@@ -199,7 +201,7 @@ def run (c : Case) : CaseOut := Id.run do
   let bounds := cfg.mode == "direct"
   let some rows := c.ops.mapM (fun (op, _) => parseRow cfg.nkeys op) | return bad
   -- model
-  let outs := Global.run encJoin q rows
+  let outs := Global.run encGlobal q rows
   let obs := outs.map fun o => match o with
     | none => []
     | some r => [renderFire bounds r]
@@ -226,11 +228,9 @@ def run (c : Case) : CaseOut := Id.run do
     let io := implOuts.map fun o => o.getD none
     let segsI := segsAlong [] rows io
     let seg := segsI.getD i []
-    if coll then cls := "group-key-collision"
-    else if !Spec.pointSafe pred seg then cls := "null-aggregate-in-predicate"
+    if !coll && !Spec.pointSafe pred seg then cls := "null-aggregate-in-predicate"
   | none =>
-    if coll then cls := "group-key-collision"
-    else if unsafeM then cls := "null-aggregate-in-predicate"
+    if unsafeM then cls := "null-aggregate-in-predicate"
   -- the runner diffs model and implementation only for cases whose oracle verdict is ok; a failure
   -- inside a recorded class must still be the failure the model predicts, otherwise it is a new one
   if failIdx.isSome && obs != c.ops.map (·.2) then
@@ -250,6 +250,9 @@ def run (c : Case) : CaseOut := Id.run do
   if segsM.any (fun seg => decide (evalDirect pred (fun cl => Spec.aggOf cl seg) = .ok true) != Spec.predTrue pred seg) then
     tags := addTag tags "engine-differs-from-sql"
   if coll then tags := addTag tags "key-collision"
+  if (rows.map (·.key)).any (fun k => k.any fun p => match p with
+      | some t => t.contains '|' || t.contains '\\' || t.isEmpty
+      | none => false) then tags := addTag tags "separator-or-empty-key-part"
   if (segsM.zip outs).any (fun (seg, o) => o.isSome && seg.length ≥ 2) then tags := addTag tags "fired-on-multi-row-segment"
   return { obs := obs, spec := spec, cls := cls, tags := tags }
 
